@@ -76,6 +76,7 @@ from hippolyzer.lib.base import xfer_manager as xfer_mod
 from hippolyzer.lib.base.xfer_manager import Xfer, XferManager
 
 from hmc import assetgen as ag
+from hmc import introspect as ins
 from hmc import vloop
 from hmc.core import Part, Run, pmap
 
@@ -834,6 +835,17 @@ MODES = ("xfer-pump", "xfer-direct", "xfer-turbo", "transfer-pump", "transfer-di
 _HANDLER_SITE = {"xfer": "XferManager._handle_send_xfer_packet", "transfer": "TransferManager._handle_transfer_packet"}
 
 
+def _await_failure(obj) -> Optional[BaseException]:
+    """The exception a finished Xfer/Transfer would raise when awaited, through its public __await__ only."""
+    try:
+        next(obj.__await__())
+    except StopIteration:
+        return None
+    except BaseException as e:  # noqa: BLE001
+        return e
+    return None
+
+
 def run_history(mode: str, size: int, wires: List[bytes], seq: Tuple[int, ...], info_wire: Optional[bytes] = None) -> Tuple[List[Dict[str, str]], tuple]:
     """Deliver chunk datagrams in the order `seq` to a fresh receiver; evaluate the oracle after every arrival."""
     proto, how = mode.split("-")
@@ -863,6 +875,14 @@ def run_history(mode: str, size: int, wires: List[bytes], seq: Tuple[int, ...], 
                 obj = mgr.request(source_type=TransferSourceType.SIM_ESTATE, transfer_id=TRANSFER_ID,
                                   params=TransferRequestParamsSimEstate(EstateAssetType=EstateAssetType.COVENANT))
         loop.run_ready()
+        direct_handler = None
+        if how == "direct":
+            # the per-packet handler is private; when a refactoring renames it the direct seam is skipped (the subscribed seams
+            # 'plain'/'turbo'/'request' drive the same code through MessageHandler) and the skip is counted
+            direct_handler = getattr(mgr, site.split(".")[1], None)
+            if direct_handler is None:
+                ins.note_fallback(site)
+                return [], ("direct-seam-unavailable",)
         if how != "direct" and info_wire is not None:
             mh.handle(_DE.deserialize(info_wire))
             loop.run_ready()
@@ -877,7 +897,7 @@ def run_history(mode: str, size: int, wires: List[bytes], seq: Tuple[int, ...], 
             msg.direction = Direction.IN
             try:
                 if how == "direct":
-                    (mgr._handle_send_xfer_packet if proto == "xfer" else mgr._handle_transfer_packet)(msg, obj)
+                    direct_handler(msg, obj)
                 else:
                     mh.handle(msg)
                 loop.run_ready()
@@ -894,8 +914,8 @@ def run_history(mode: str, size: int, wires: List[bytes], seq: Tuple[int, ...], 
                 bad("complete-early", site, f"{n} chunks, arrivals {prefix}: done() is true but chunks {sorted(set(range(n)) - seen)} have not arrived")
             if model_done and not done:
                 bad("complete-late", site, f"{n} chunks, arrivals {prefix}: all chunks arrived, done() is false")
-            if done and (obj.cancelled() or obj._future.exception() is not None):
-                bad("complete-late", site + ":failed", f"arrivals {prefix}: future failed: {obj._future!r}")
+            if done and (obj.cancelled() or _await_failure(obj) is not None):
+                bad("complete-late", site + ":failed", f"arrivals {prefix}: future failed: {_await_failure(obj)!r}")
             if was_done and not done:
                 bad("complete-reverts", site, f"arrivals {prefix}: done() went back to false")
             was_done = was_done or done
